@@ -739,7 +739,7 @@ M("c08-bind-does-not-flatten", ["C08"], VM,
   [("C08", "C08-R9", "bind-of-bound")], note="fix 46bea00 disabled")
 M("c10-ord-of-upper", ["C10", "C04"], "src/microjs/regex/vm.py",
   "ch_upper = _case_code(ch, ch.upper())", "ch_upper = ord(ch.upper())",
-  [("C10", "C10-R6", "ord"), ("C04", "C04-R2c", "ord")], note="fix bed597f reverted at one site")
+  [("C10", "C10-R6", "ord"), ("C04", "C04-R2c", "ord")], count=2, note="fix bed597f reverted at the class handlers")
 M("c04-parseint-any-letter", ["C04"], CX,
   "            elif ch.isascii() and ch.isalpha():\n                digit = ord(ch.lower())", "            elif ch.isalpha():\n                digit = ord(ch.lower())",
   [("C04", "C04-R2c", "_global_parseint")], note="fix 69320de reverted")
@@ -1295,3 +1295,21 @@ M("c13-new-callee-takes-calls", ["C13"], PA,
 M("c08-constructor-returns-function-dropped", ["C08"], VM,
   "                if not isinstance(result, (JSObject, JSFunction)):\n", "                if not isinstance(result, JSObject):\n",
   [("C08", "C08-R20", "constructor-result")], note="fix da3ae7d reverted")
+M("c09-negated-class-one-case-form", ["C09"], RV,
+  "                    if self.ignorecase:\n                        ch_upper = _case_code(ch, ch.upper())\n                        if start <= ch_upper <= end:\n                            matched = True\n                            break\n\n                if not matched:\n", "\n                if not matched:\n",
+  [("C09", "C09-R7", "RANGE/RANGE_NEG")], note="fix 8d8b250 reverted for the negated class")
+M("c09-dot-matches-cr", ["C09"], RV,
+  "                if sp >= len(string) or string[sp] in _LINE_TERMINATORS:\n", "                if sp >= len(string) or string[sp] == \"\\n\":\n",
+  [("C09", "C09-R8", "DOT")], note="fix 8d8b250 reverted for the dot")
+M("c09-line-terminator-set-short", ["C09"], RV,
+  "_LINE_TERMINATORS = frozenset(\"\\n\\r\\u2028\\u2029\")\n", "_LINE_TERMINATORS = frozenset(\"\\n\\r\")\n",
+  [("C09", "C09-R8", "line-terminators")], note="LS and PS forgotten")
+M("c09-multiline-start-refuses-end", ["C09"], RV,
+  "                if sp != 0 and string[sp - 1] not in _LINE_TERMINATORS:\n", "                if sp != 0 and (sp >= len(string) or string[sp - 1] not in _LINE_TERMINATORS):\n",
+  [("C09", "C09-R8", "LINE_START_M")], note="^ under m refused at the end of the subject again")
+M("c09-optional-reset-before-split", ["C09"], RC,
+  "            split_idx = self._emit(Op.SPLIT_FIRST, 0)\n            # The captures of the body start out undefined in the branch that\n", "            self._emit_capture_reset(capture_groups)\n            split_idx = self._emit(Op.SPLIT_FIRST, 0)\n            # The captures of the body start out undefined in the branch that\n",
+  [("C09", "C09-R9", "_compile_optional")], note="fix 45df918 reverted for optional copies: a reset in front of the branch point")
+M("c09-unrolled-copies-keep-captures", ["C09"], RC,
+  "        for _ in range(min_count):\n            self._emit_capture_reset(capture_groups)\n            self._compile_node(body)\n\n        # Then emit * for the rest\n", "        for _ in range(min_count):\n            self._compile_node(body)\n\n        # Then emit * for the rest\n",
+  [("C09", "C09-R9", "_compile_at_least:unrolled")], note="fix 45df918 reverted for {n,}")
